@@ -270,7 +270,8 @@ VecOf ==
             [op |-> "decode2", tag |-> case.tag, wire |-> wire, exp |-> req @@ ValueFlags]
       [] case.op = "decode_type" ->
             [op |-> "decode_type", tag |-> case.tag, type |-> case.type, bytes |-> case.bytes,
-             exp |-> IF req.ok THEN req @@ [clone_eq |-> TRUE] ELSE req]
+             exp |-> (IF req.ok THEN req @@ [clone_eq |-> TRUE] ELSE req)
+                     @@ (IF "reenc" \in DOMAIN case THEN [reenc |-> <<case.reenc>>] ELSE << >>)]
       [] case.op = "encode2" ->
             [op |-> "encode2", tag |-> case.tag, resp |-> case.resp, cap |-> case.cap,
              stale |-> stale, exp |-> [buf |-> buf]]
